@@ -76,6 +76,17 @@ fn run_case(c: &Value, batched: bool) -> (Value, Value, &'static str) {
                     let (items, end) = poll_group(&mut st, 0, &mut cx, $tob);
                     (seq_json(init.iter()), Value::Array(items), end)
                 }
+                "filter" => {
+                    let (init, mut st) = obs.filter(|e: &Elem| e.v.rem_euclid(2) == 1);
+                    let (items, end) = poll_group(&mut st, 0, &mut cx, $tob);
+                    (seq_json(init.iter()), Value::Array(items), end)
+                }
+                "filter_map" => {
+                    let (init, mut st) =
+                        obs.filter_map(|e: Elem| if e.v.rem_euclid(2) == 1 { Some(Elem::new(e.v + 100)) } else { None });
+                    let (items, end) = poll_group(&mut st, 0, &mut cx, $tob);
+                    (seq_json(init.iter()), Value::Array(items), end)
+                }
                 _ => {
                     let (init, mut st) = obs.dynamic_skip_with_initial_count(p, Script(lim));
                     let (items, end) = poll_group(&mut st, 0, &mut cx, $tob);
